@@ -2,6 +2,7 @@
 import json
 import math
 import random
+import warnings
 from fractions import Fraction as Fr
 
 import numpy as np
@@ -330,6 +331,7 @@ def correspond(res):
 
     # ---- 4. oracle stream: every constructor on step and real models ------------------------
     _oracle_constructors(res, rng, 1 if not thorough else 6, viol)
+    _tail_probabilities(res, rng, viol, thorough)
 
     groups.append(("uniform", "Q * Q * Q * option (list Q * nat)",
                    "fun c => match c with (l, h, r, e) => match uniform_axis l h r, e with "
@@ -388,6 +390,56 @@ def _tail_monitor(res, viol, model, grid, ctor, args, target=0.99999, finding=No
     if not ok:
         viol(f"{ctor}: end points do not carry the promised tail probability", kind="ctor", ctor=ctor, args=args,
              left=float(pl), right=float(pr), target=target, **({"finding": finding} if finding else {}))
+
+
+def _tail_probabilities(res, rng, viol, thorough):
+    """every constructor that takes a truncation_probability (CTMCUniformGrid, CTMCGridGeometric; CTMCCredit and the
+    probability-step grid take none), dimension 1-3, several NON-default probabilities: the tail mass kept on each side
+    must be the requested one (root finder tolerance; 2% of the tail that is cut)"""
+    from rpylib.grid.spatial import CTMCUniformGrid, CTMCGridGeometric
+    from stepmeasure import real_model_specs, build_model, build_copula_model
+    specs = real_model_specs(rng)
+    probs = [0.9, 0.99, 0.999, 0.999999]
+    plan = []
+    for k, spec in enumerate(specs):
+        for p in (probs if thorough else [probs[(k + i) % 4] for i in (0, 2)]):
+            plan.append(([spec], p))
+    plan += [([specs[0], specs[0]], 0.99), ([specs[1], specs[2]], 0.999), ([specs[0], specs[1], specs[0]], 0.9)]   # copula models, dim 2-3
+    for model_specs, p in plan:
+        dim = len(model_specs)
+        margins = [build_model(sp) for sp in model_specs]
+        model = margins[0] if dim == 1 else build_copula_model(model_specs, "clayton")
+        for ctor in ("uniform", "geometric"):
+            h = 0.02
+            args = {"models": model_specs, "h": h, "truncation_probability": p, "ctor": ctor}
+            try:
+                with warnings.catch_warnings():
+                    warnings.simplefilter("ignore")
+                    g = (CTMCUniformGrid(h=h, model=model, truncation_probability=p) if ctor == "uniform"
+                         else CTMCGridGeometric(h=h, model=model, nb_of_points_on_each_side=4, truncation_probability=p))
+            except Exception as e:  # noqa
+                note_exception(res, "tailprob_outcome", e, ctor, args)
+                continue
+            res.count(("tailprob", ctor, dim, p, json.dumps(model_specs, sort_keys=True)), kind=f"tail probability {ctor} dim={dim}")
+            res.bump("tail_probability_requested", p)
+            why = grid_reason(g)
+            if why:
+                viol(f"{ctor} grid with a non-default truncation probability is malformed: " + why.split(":")[-1].strip()[:60],
+                     kind="tailprob", reason=why, **args)
+                continue
+            # l = min over the margins' left bounds, r = max over the right bounds: the margin attaining the bound keeps exactly p
+            l, r = g.truncations[0]
+            lefts, rights = [], []
+            for m in margins:
+                nu = m.levy_triplet.nu
+                with np.errstate(all="ignore"):
+                    rights.append(nu.integrate(h / 2, r) / nu.integrate(h / 2, np.inf))
+                    lefts.append(nu.integrate(l, -h / 2) / nu.integrate(-np.inf, -h / 2))
+            tol = max(1e-9, 0.02 * (1 - p))
+            got_l, got_r = min(lefts), min(rights)
+            if not (abs(got_l - p) <= tol and abs(got_r - p) <= tol):
+                viol("the grid's end points do not carry the REQUESTED truncation probability", kind="tailprob",
+                     left=float(got_l), right=float(got_r), requested=p, **args)
 
 
 def _oracle_constructors(res, rng, scale, viol):
@@ -543,6 +595,22 @@ def replay(path):
                     return 1
             print("no failure on replay")
             return 0
+        elif k == "tailprob":
+            out = []
+            from stepmeasure import build_copula_model
+            ms = data["models"]
+            margins = [build_model(sp) for sp in ms]
+            model = margins[0] if len(ms) == 1 else build_copula_model(ms, "clayton")
+            p, h = data["truncation_probability"], data["h"]
+            g = (CTMCUniformGrid(h=h, model=model, truncation_probability=p) if data["ctor"] == "uniform"
+                 else CTMCGridGeometric(h=h, model=model, nb_of_points_on_each_side=4, truncation_probability=p))
+            l, r = g.truncations[0]
+            lefts = [m.levy_triplet.nu.integrate(l, -h / 2) / m.levy_triplet.nu.integrate(-np.inf, -h / 2) for m in margins]
+            rights = [m.levy_triplet.nu.integrate(h / 2, r) / m.levy_triplet.nu.integrate(h / 2, np.inf) for m in margins]
+            print("requested", p, "achieved left", min(lefts), "right", min(rights))
+            bad = abs(min(lefts) - p) > max(1e-9, 0.02 * (1 - p)) or abs(min(rights) - p) > max(1e-9, 0.02 * (1 - p))
+            print("still fails" if bad else "no failure on replay")
+            return 1 if bad else 0
         elif k == "ctor":
             a = data["args"]
             model = build_model(a["model"]) if "model" in a else None
